@@ -347,7 +347,8 @@ def m_is_empty(ci):
 def m_index(ci):
     a = ci.args[0]
     i = ci.args[1]
-    if i[0] in ("int", "sym", "proj", "app"):
+    if i[0] in ("int", "sym", "proj", "app", "item", "unwrap"):
+        ci.st.emit(("index_elem", ci.deref(a), i, ci.w))
         if a[0] == "ref":
             tgt = a[1]
             return ("ref", tgt[:-1] + (tgt[-1] + (("index", i),),), a[2])
@@ -367,6 +368,7 @@ def m_index(ci):
         else:
             raise Unsupported("index by %s" % nm)
         lo = lo or mk_int(0, "usize")
+        ci.st.emit(("index_range", base, lo, hi, ci.w))
         if base[0] == "bytes" and lo[0] == "int" and (hi is None or hi[0] == "int"):
             h = hi[1] if hi else len(base[1])
             if lo[1] <= h <= len(base[1]):
@@ -502,6 +504,8 @@ def m_into_iter(ci):
     x = ci.args[0]
     if x[0] == "iter":
         return x
+    if x[0] == "adt" and x[1].endswith("ops::range::Range"):
+        return x   # impl<I: Iterator> IntoIterator for I: a Range is its own iterator
     if x[0] == "ref":
         return ("iter", "slice", ci.ev.load(ci.st, x[1]))
     return ("iter", "into", x)
@@ -519,7 +523,13 @@ def m_iter_next(ci):
         item = ("tuple", (("item_index", it), ("item", it[2], ci.w.split(" ")[0])))
     d = ("app", "has_next", (it, mk_int(n, "usize")))
     ci.st.aux["next_count"] = n + 1
-    return ("fork", [([(d, 1)], some(ev, item)), ([(d, 0)], none(ev))])
+    facts = [(d, 1)]
+    if it[0] == "adt" and it[1].endswith("ops::range::Range") and len(it[4]) == 2:
+        # Range<T>::next yields start <= item < end (core::ops::Range docs)
+        item = ("item", it, ci.w.split(" ")[0], n)
+        facts.append((("app", "Lt", (item, it[4][1])), 1))
+        facts.append((("app", "Ge", (item, it[4][0])), 1))
+    return ("fork", [(facts, some(ev, item)), ([(d, 0)], none(ev))])
 
 
 def concrete_items(ci, it):
@@ -586,6 +596,7 @@ def m_sum(ci):
         if wrap(tot, ty) != tot:
             return ("panic!", "attempt to add with overflow in Iterator::sum::<%s>" % ty)
         return mk_int(tot, ty)
+    ci.st.emit(("sum", ty, ci.args[0], ci.w))
     return ("app", "sum:" + ty, (ci.args[0],))
 
 
